@@ -185,6 +185,11 @@ func (p *Prog) Accesses(fn *ssa.Function) []*Access {
 					a.Atomic = true
 				} else if strings.HasPrefix(name, "(*sync.") {
 					// Lock/Unlock/WaitGroup methods on the field itself
+				} else if okAt, wAt := atomicOnlyMethod(x.Common().StaticCallee(), x.Common().Args, addr); okAt {
+					// a method of the field's own counter type that does nothing with the address but atomic operations
+					// (`func (c *commandCounter) next() uint32 { return atomic.AddUint32((*uint32)(c), 1) … }`)
+					a := add(x, f, g, base, wAt, "atomic")
+					a.Atomic = true
 				} else {
 					add(x, f, g, base, false, "addr")
 				}
@@ -582,4 +587,54 @@ func (gt *GuardTable) lookup(a *Access) (guard, bool) {
 		return g, ok
 	}
 	return guard{}, false
+}
+
+// atomicOnlyMethod: the callee receives the address as one of its parameters and uses that parameter only as the
+// operand of sync/atomic functions (possibly after a pointer conversion); writes says whether one of them stores.
+func atomicOnlyMethod(g *ssa.Function, args []ssa.Value, addr ssa.Value) (ok bool, writes bool) {
+	if g == nil || len(g.Blocks) == 0 {
+		return false, false
+	}
+	idx := -1
+	for i, a := range args {
+		if a == addr {
+			idx = i
+		}
+	}
+	if idx < 0 || idx >= len(g.Params) {
+		return false, false
+	}
+	n := 0
+	var check func(v ssa.Value) bool
+	check = func(v ssa.Value) bool {
+		for _, r := range referrers(v) {
+			switch x := r.(type) {
+			case *ssa.ChangeType:
+				if !check(x) {
+					return false
+				}
+			case *ssa.Convert:
+				if !check(x) {
+					return false
+				}
+			case ssa.CallInstruction:
+				name := fullCalleeName(x)
+				if !strings.HasPrefix(name, "sync/atomic.") {
+					return false
+				}
+				n++
+				if !strings.HasPrefix(name, "sync/atomic.Load") {
+					writes = true
+				}
+			case *ssa.DebugRef:
+			default:
+				return false
+			}
+		}
+		return true
+	}
+	if !check(g.Params[idx]) || n == 0 {
+		return false, false
+	}
+	return true, writes
 }
